@@ -30,6 +30,8 @@ ASSUMPTIONS = [
     "texts end with a newline (the missing-final-newline behaviour is C03's business)",
 ]
 BUDGET = {"quick": 700, "thorough": 14000}
+# coverage-guided twins (thorough tier): part name -> executions per shard; see core.cover
+COVER = {"edits": 3000, "dependency": 1500}
 
 
 def check_rules(case: typing.Any, ctx: Ctx) -> Info:
